@@ -156,7 +156,7 @@ def walcrashOpWith (tolerateDup : Bool) : Op := fun args =>
       let mid := jS.startsWith "m"
       let jS' := if mid then String.ofList (jS.toList.drop 1) else jS
       match parseNat jS' with
-      | none => s!"M:*\tS:{spec}\tH:"
+      | none => s!"M:*\tS:{spec}\tH:{if jS == "u" then "unsynced_catalog_data" else ""}"
       | some j =>
         if mid then s!"M:*\tS:{spec}\tH:var_crash_between_data_and_index" else
         let predict := fun (extra : List Effect) (bs : List BInfo) =>
